@@ -48,10 +48,19 @@ type FuncContract struct {
 	Trusted  bool // contract of a dependency (assumed, not verified)
 	Opaque   bool // module function assumed without proof (listed as assumption)
 	Checks   map[string]bool
+	Stables  []Clause
+	Locals   []LocalDef
+	Afters   map[string][]ogAssign
 	Replay   string // replay template name
 	File     string
 	Line     int
 	Attrs    map[string]string
+}
+
+type LocalDef struct {
+	Name string
+	Type string
+	Init ast.Expr
 }
 
 type LetDef struct {
@@ -467,6 +476,56 @@ func (cs *ContractSet) ParseContractFile(path, pkg string, trusted bool) error {
 				}
 			case "property":
 				cur.Props = strings.FieldsFunc(rest, func(r rune) bool { return r == ',' || r == ' ' })
+			case "concurrent":
+				cur.Attrs["concurrent"] = rest
+			case "nonblock":
+				cur.Attrs["nonblock"] += " " + rest
+			case "stable":
+				c, err := parseClause(rest, path, ln.n, cur.Props)
+				if err != nil {
+					return err
+				}
+				cur.Stables = append(cur.Stables, c)
+			case "local":
+				// local NAME TYPE [= INIT]
+				fs := strings.Fields(rest)
+				if len(fs) < 2 {
+					return fail(fmt.Errorf("local NAME TYPE [= INIT]"))
+				}
+				ld := LocalDef{Name: fs[0], Type: fs[1]}
+				if i := strings.Index(rest, "="); i >= 0 {
+					e, err := parseSpecExpr(rest[i+1:])
+					if err != nil {
+						return fail(err)
+					}
+					ld.Init = e
+				}
+				cur.Locals = append(cur.Locals, ld)
+			case "after":
+				// after OPKEY: a = e1; b = e2
+				i := strings.Index(rest, ":")
+				if i < 0 {
+					return fail(fmt.Errorf("after OPKEY: x = expr; y = expr"))
+				}
+				key := strings.TrimSpace(rest[:i])
+				if cur.Afters == nil {
+					cur.Afters = map[string][]ogAssign{}
+				}
+				for _, as := range splitTop(rest[i+1:], ';') {
+					as = strings.TrimSpace(as)
+					if as == "" {
+						continue
+					}
+					j := strings.Index(as, "=")
+					if j < 0 {
+						return fail(fmt.Errorf("after: assignment expected: %s", as))
+					}
+					e, err := parseSpecExpr(as[j+1:])
+					if err != nil {
+						return fail(err)
+					}
+					cur.Afters[key] = append(cur.Afters[key], ogAssign{Name: strings.TrimSpace(as[:j]), Expr: e, Text: as[j+1:]})
+				}
 			case "inline":
 				cur.Inline = true
 			case "opaque":
